@@ -15,6 +15,8 @@
 //         g [self value <v> | self exc <c> | self drop]      thread 0: registers, then (self) invokes the promise itself
 //         pre value <v> | pre exc <c> | pre drop             the factory resolves the promise before it returns
 //         imm value <v> | imm exc <c> | imm drop             the factory returns future<T>::set_value/.. (no promise)
+//         fthrow <c>                                         (conv, callfn) the factory THROWS instead of returning a future: future<T>::result_of
+//                                                            catches, re-creates the future and resolves it with the exception (not traced, like imm)
 //         r value <v> | r exc <c> | r drop                   resolver thread: invokes the shared promise
 //         d                                                  thread destroying the promise after all invocations
 //         read get|star|bool|not                             how the callback_await callback inspects its await_result:
@@ -219,7 +221,7 @@ struct Src {
     Env &env;
     std::optional<promise<T>> prom;
     bool published = false;
-    std::vector<std::string> pre, imm;   // empty = not used
+    std::vector<std::string> pre, imm, fthrow;   // empty = not used
 
     explicit Src(Env &e) : env(e) {}
 
@@ -244,6 +246,11 @@ struct Src {
     // the awaited operation: called by the adapter under test on the registering thread
     future<T> make() {
         trk::Off off;
+        if (!fthrow.empty()) {
+            // starting the operation itself fails: the function that is supposed to return the future throws
+            publish(promise<T>());
+            throw test_exc(atoi(fthrow[1].c_str()));
+        }
         if (!imm.empty()) {
             publish(promise<T>());
             if (imm[1] == "value") {
@@ -361,7 +368,7 @@ struct CaObj {
 
 struct Round {
     std::vector<std::vector<std::string>> threads;   // g / r / d lines in order
-    std::vector<std::string> pre, imm;
+    std::vector<std::string> pre, imm, fthrow;
     std::vector<int> sched;
     bool cbthrow = false;
     bool coro = false;
@@ -412,6 +419,7 @@ struct Runner {
         src.published = false;
         src.pre = c.pre;
         src.imm = c.imm;
+        src.fthrow = c.fthrow;
         S().track_only = true;
         S().name_ptr(&awaiter::instance, "inst");
         S().name_ptr(&awaiter::disabled, "ready");
@@ -649,6 +657,7 @@ int main() {
         if (w[0] == "g" || w[0] == "r" || w[0] == "d") { rd.threads.push_back(w); continue; }
         if (w[0] == "pre") { rd.pre = w; continue; }
         if (w[0] == "imm") { rd.imm = w; continue; }
+        if (w[0] == "fthrow" && w.size() > 1) { rd.fthrow = w; continue; }
         if (w[0] == "cbthrow") { rd.cbthrow = true; continue; }
         if (w[0] == "read" && w.size() > 1) { rd.read = w[1]; continue; }
         if (w[0] == "ctx" && w.size() > 1) { rd.coro = w[1] == "coro"; continue; }
